@@ -31,47 +31,56 @@ inductive E where
   | chain (l : E) (op₁ : Cop) (m : E) (op₂ : Cop) (r : E) (par : Bool)   -- `l op₁ m op₂ r`
   | ifx   (t c f : E) (par : Bool)                              -- `t if c else f`
   | named (n : String) (v : E) (par : Bool)                     -- `n := v`
+  | tup   (a b : E) (par : Bool)                                -- `a, b` (a tuple display; bare only where a statement allows it)
   deriving DecidableEq, Repr
 
 namespace E
 
 def par : E → Bool
-  | atom _ p | call _ _ p | neg _ p | lnot _ p | bin _ _ _ p | cmp _ _ _ p | chain _ _ _ _ _ p | ifx _ _ _ p | named _ _ p => p
+  | atom _ p | call _ _ p | neg _ p | lnot _ p | bin _ _ _ p | cmp _ _ _ p | chain _ _ _ _ _ p | ifx _ _ _ p | named _ _ p | tup _ _ p => p
 
 def setPar (b : Bool) : E → E
   | atom n _ => atom n b | call r ps _ => call r ps b | neg e _ => neg e b | lnot e _ => lnot e b
   | bin k l r _ => bin k l r b | cmp o l r _ => cmp o l r b | chain l a m c r _ => chain l a m c r b
-  | ifx t c f _ => ifx t c f b | named n v _ => named n v b
+  | ifx t c f _ => ifx t c f b | named n v _ => named n v b | tup x y _ => tup x y b
 
-/-- precedence of the top operator (Python grammar: `:=` < `if`–`else` < `or` < `and` < `not` <
-comparison < `+` < unary `-` < primary) -/
+/-- precedence of the top operator (Python grammar: bare tuple < `:=` < `if`–`else` < `or` < `and` <
+`not` < comparison < `+` < unary `-` < primary) -/
 def opLevel : E → Nat
-  | named .. => 0 | ifx .. => 1 | bin .or .. => 2 | bin .and .. => 3 | lnot .. => 4
-  | cmp .. => 5 | chain .. => 5 | bin .arith .. => 6 | neg .. => 7 | atom .. => 9 | call .. => 9
+  | tup .. => 0 | named .. => 1 | ifx .. => 2 | bin .or .. => 3 | bin .and .. => 4 | lnot .. => 5
+  | cmp .. => 6 | chain .. => 6 | bin .arith .. => 7 | neg .. => 8 | atom .. => 10 | call .. => 10
 
 /-- level at which the printed node binds: parentheses make anything a primary -/
-def level (e : E) : Nat := if e.par then 9 else e.opLevel
+def level (e : E) : Nat := if e.par then 10 else e.opLevel
 
 end E
 open E
 
 /-- slot levels of the two operands of a binary operator -/
-def slotL : BK → Nat | .arith => 6 | .and => 3 | .or => 2
-def slotR : BK → Nat | .arith => 7 | .and => 4 | .or => 3
+def slotL : BK → Nat | .arith => 7 | .and => 4 | .or => 3
+def slotR : BK → Nat | .arith => 8 | .and => 5 | .or => 4
 
 /-- `WP m e`: every node sits in a slot that accepts it without (further) parentheses.
-Slots: `-□` 7 · `□ + □` 6, 7 · comparison operands 6 · `not □` 4 · `□ and □` 3, 4 · `□ or □` 2, 3 ·
-`□ if □ else □` 2, 2, 1 · `n := □` 1. -/
+Slots: `-□` 8 · `□ + □` 7, 8 · comparison operands 7 · `not □` 5 · `□ and □` 4, 5 · `□ or □` 3, 4 ·
+`□ if □ else □` 3, 3, 2 · `n := □` 2 · tuple elements 2 (1 inside parentheses: `(x := 1, y)`).
+Contexts: the right-hand side of an assignment is a slot of level 0 (a bare tuple may stand there),
+the test of an `if` is a slot of level 1 (a bare `:=` may stand there, a bare tuple may not). -/
 def WP (m : Nat) : E → Bool
   | atom n p => decide (m ≤ (atom n p).level)
   | call r ps p => decide (m ≤ (call r ps p).level)
-  | neg x p => decide (m ≤ (neg x p).level) && WP 7 x
-  | lnot x p => decide (m ≤ (lnot x p).level) && WP 4 x
+  | neg x p => decide (m ≤ (neg x p).level) && WP 8 x
+  | lnot x p => decide (m ≤ (lnot x p).level) && WP 5 x
   | bin k l r p => decide (m ≤ (bin k l r p).level) && WP (slotL k) l && WP (slotR k) r
-  | cmp o l r p => decide (m ≤ (cmp o l r p).level) && WP 6 l && WP 6 r
-  | chain l a x c r p => decide (m ≤ (chain l a x c r p).level) && WP 6 l && WP 6 x && WP 6 r
-  | ifx t c f p => decide (m ≤ (ifx t c f p).level) && WP 2 t && WP 2 c && WP 1 f
-  | named n v p => decide (m ≤ (named n v p).level) && WP 1 v
+  | cmp o l r p => decide (m ≤ (cmp o l r p).level) && WP 7 l && WP 7 r
+  | chain l a x c r p => decide (m ≤ (chain l a x c r p).level) && WP 7 l && WP 7 x && WP 7 r
+  | ifx t c f p => decide (m ≤ (ifx t c f p).level) && WP 3 t && WP 3 c && WP 2 f
+  | named n v p => decide (m ≤ (named n v p).level) && WP 2 v
+  | tup a b p => decide (m ≤ (tup a b p).level) && WP (if p then 1 else 2) a && WP (if p then 1 else 2) b
+
+/-- what may stand on the right of `n = …`: an expression (no bare `:=`), or a bare tuple of expressions -/
+def WPrhs : E → Bool
+  | tup a b false => WP 2 a && WP 2 b
+  | e => WP 2 e
 
 /-! ## combine-startswith-endswith / combine-isinstance-issubclass -/
 
@@ -111,6 +120,7 @@ def combine (keepPar : Bool) : E → E
   | chain l a x c r p => chain (combine keepPar l) a (combine keepPar x) c (combine keepPar r) p
   | ifx t c f p => ifx (combine keepPar t) (combine keepPar c) (combine keepPar f) p
   | named n v p => named n (combine keepPar v) p
+  | tup a b p => tup (combine keepPar a) (combine keepPar b) p
 
 /-! ## invert-boolean-check -/
 
@@ -145,6 +155,7 @@ def invert (keepPar : Bool) : E → E
   | chain l a x c r p => chain (invert keepPar l) a (invert keepPar x) c (invert keepPar r) p
   | ifx t c f p => ifx (invert keepPar t) (invert keepPar c) (invert keepPar f) p
   | named n v p => named n (invert keepPar v) p
+  | tup a b p => tup (invert keepPar a) (invert keepPar b) p
 
 /-- node classes that have a `.value` attribute; `report_new_comparison` reads `comparator.value` of an `is` comparison
 without looking at the class first, so any other comparator makes the transformer raise (the file is then reported failed) -/
@@ -167,6 +178,7 @@ def invertRaises : E → Bool
   | chain l _ x _ r _ => invertRaises l || invertRaises x || invertRaises r
   | ifx t c f _ => invertRaises t || invertRaises c || invertRaises f
   | named _ v _ => invertRaises v
+  | tup a b _ => invertRaises a || invertRaises b
 
 /-! ## use-walrus-if -/
 
@@ -183,10 +195,18 @@ inductive Test where
   | notName (p : Bool)           -- `if not val:`
   | cmpName (op : Cop) (rhs : E) (p : Bool)   -- `if val <op> rhs:`
 
+/-- `on_visit`: a bare tuple (or `yield`) on the right of the assignment gets parentheses before
+anything else is done with it -/
+def parenTuple : E → E
+  | tup a b false => tup a b true
+  | e => e
+
 /-- what `leave_If` writes for `n = value` followed by the test; `single` = the name is read nowhere
-else (the value is inlined), otherwise a walrus is used. `guard = false` is the code before the fix
-(the value was put in the operand position as it is). -/
-def walrus (guard : Bool) (n : String) (value : E) (single : Bool) : Test → E
+else (the value is inlined), otherwise a walrus is used. `guard = false` is the code before the fixes
+(the value was put in the operand position as it is, a bare tuple stayed bare). -/
+def walrus (guard : Bool) (n : String) (value0 : E) (single : Bool) (t : Test) : E :=
+  let value := if guard then parenTuple value0 else value0
+  match t with
   | .name => if single then value else named n value false
   | .notName p =>
     let x := if single then value else named n value true
@@ -216,5 +236,6 @@ def render : E → String
   | chain l a x c r p => wrap p (render l ++ " " ++ a.str ++ " " ++ render x ++ " " ++ c.str ++ " " ++ render r)
   | ifx t c f p => wrap p (render t ++ " if " ++ render c ++ " else " ++ render f)
   | named n v p => wrap p (n ++ " := " ++ render v)
+  | tup a b p => wrap p (render a ++ ", " ++ render b)
 
 end CM.Prec
